@@ -144,6 +144,9 @@ pub fn builder_profile() -> Profile {
         ("add_global", 1),
         ("set_fn_name", 1),
         ("inject", 1),
+        // functions are also built while other edits are pending
+        ("convert_local_to_import", 2),
+        ("replace_import", 1),
     ]);
     p
 }
@@ -529,6 +532,7 @@ fn owns(id: &str, m: &Mismatch) -> bool {
         }
         "C12" => {
             (matches!(k, "name_lost" | "name_migrated") && s == "func(built)")
+                || (matches!(k, "func_ref" | "global_ref" | "mem_ref") && s.ends_with("(built)"))
                 || (k == "entity_changed" && s.starts_with("func(built)"))
                 || (k == "local_decl" && s == "func(built)")
                 || (k == "body_sequence" && s.starts_with("func(built)"))
